@@ -1095,18 +1095,17 @@ inline void DnsMessage::validateRdataSecurity(const DnsResourceRecord &rr)
     }
   }
 
-  // Validate other record types that should never contain compression pointers in RDATA
-  if (rr.type == DnsType::TXT || rr.type == DnsType::AAAA)
+  // AAAA RDATA is a 16-octet address and TXT RDATA is a sequence of <character-string>s: every
+  // octet value, 0xC0..0xFF included, is ordinary data there (most IPv6 addresses and all
+  // non-ASCII UTF-8 text contain such octets), and neither parser ever follows a compression
+  // pointer in them. Only a wrong-length AAAA RDATA that starts with a pointer pattern is
+  // treated like the corresponding A-record case above; the length error itself is reported
+  // by parseAAAARecord.
+  if (rr.type == DnsType::AAAA && rr.rdata.size() != 16 && rr.rdata.size() >= 2 &&
+      (rr.rdata[0] & constants::DNS_COMPRESSION_MASK) == constants::DNS_COMPRESSION_MASK)
   {
-    for (std::size_t i = 0; i < rr.rdata.size() - 1; ++i)
-    {
-      if ((rr.rdata[i] & constants::DNS_COMPRESSION_MASK) == constants::DNS_COMPRESSION_MASK)
-      {
-        throw DnsParseException("Malicious compression pointer detected in " +
-                                std::to_string(static_cast<std::uint16_t>(rr.type)) +
-                                " record RDATA at offset " + std::to_string(i));
-      }
-    }
+    throw DnsParseException(
+      "Malicious compression pointer in AAAA record RDATA with invalid length");
   }
 
   // Additional validation for other record types that shouldn't have compression pointers
